@@ -182,7 +182,7 @@ def rule_root(ck, facts, pm):
             ck.bad(R, "root|exit-at-end", "the root loop can be left while tokens remain (exit not guarded by is_at_end())", f.where())
 
 
-def rule_trivia(ck, facts, loss=True):
+def rule_trivia(ck, facts, loss=True, lazy=False):
     R = "C13.trivia"
     ck.rule(R, "pre-parser: the pending-trivia vector only loses elements by append/extend into a trivia map; clear/truncate/pop/drain = loss site; storing it with a map `insert` overwrites the trivia the token already has")
     lang = facts.crate(roles.LANG)
@@ -249,6 +249,18 @@ def rule_trivia(ck, facts, loss=True):
             sinks += 1
         if short == "insert" and ("HashMap" in c or "BTreeMap" in c) and any(base_local(a) == pl for a in t[5][1:]):
             ck.bad(R, "overwrite|%s|insert" % f.short, "pre-parser: the pending trivia is stored with `insert`, which replaces whatever trivia that token already had in the map (a token that received trailing trivia at an earlier line break loses it); the other sinks extend the entry" , f.where(t))
+    # a flush at a line break must empty the pending list whether or not the token already has an entry: handing the
+    # list to a closure that a lazy entry API runs only for a vacant entry leaves it pending, and the trivia then
+    # become *leading* trivia of the next token (the printers read only the trailing side of the braces they write)
+    LAZY = ("or_insert_with", "or_insert_with_key", "get_or_insert_with", "and_modify", "or_else", "unwrap_or_else", "map_or_else", "then")
+    for b, st in (f.all_stmts() if lazy else ()):  # run by C14 only: every trivia token is still attached exactly once
+        if st[KIND] == "a" and st[5][0] == "agg" and st[5][1][0] == "closure" and any(base_local(o) == pl for o in st[5][2]):
+            dst = st[4][0]
+            for b2, t2 in f.calls():
+                if any(a[0] in ("cp", "mv") and a[1][0] == dst for a in t2[5]):
+                    nm = (callee(t2) or "").split("::")[-1]
+                    if nm in LAZY:
+                        ck.bad(R, "conditional-flush|%s|%s" % (f.short, nm), "pre-parser: the pending trivia are moved into the map by a closure given to `%s`, which runs only when the token has no entry yet: for a token that already received trivia the list stays pending and is attached to the *next* token as leading trivia (a comment line before a `}` in column 0 is then on the side the printer does not read)" % nm, f.where(t2))
     ck.floor(R, "trivia_sinks", sinks, 3)
     ck.ok(R, "sinks|%s" % f.short, {"pending_local": pl, "append/extend sinks": sinks})
     # ---- the owner of a trivia entry is named by its position among the *syntax* tokens (an index into
